@@ -315,7 +315,7 @@ func (u *Unit) pureResult(st *State, fn *types.Func, resT types.Type, x *ast.Cal
 	v := u.callResult(st, resT, fn.Name())
 	n := fullName(fn)
 	// constructors of errors never return nil
-	if n == "fmt.Errorf" || n == "errors.New" {
+	if n == "fmt.Errorf-unmodelled" {
 		st.assumeFact(app("distinct", v.S, "0"))
 		// a fresh error value: distinct from everything allocated so far
 		st.assumeFact(app(">", v.S, st.wm))
